@@ -20,7 +20,8 @@ PROBES = [
 ]
 
 def m_user_exc(case): return case.get("kind") in ("user_exception_class", "user_exception_subclass")
-MATCHERS = {"c02.user_defined_exception_class": m_user_exc}
+def m_bare_raise_callee(case): return case.get("kind") == "exception-being-handled" and case.get("position") == "in-callee-of-handler"
+MATCHERS = {"c02.user_defined_exception_class": m_user_exc, "c02.bare_raise_in_callee": m_bare_raise_callee}
 
 def uncaught_variant(src):
     i = src.index("for a in range(")
@@ -52,6 +53,8 @@ def check(res):
         cases.append((s, dict(kind="pending-exit-across-cleanup", **m)))
     for k, s in PROBES:
         cases.append((s, dict(kind=k)))
+    for s, m in progs.exc_state_programs():
+        cases.append((s, dict(kind="exception-being-handled", **m)))
     srcs = [c[0] for c in cases]
     impl = pydiff.run_impl(srcs); ref = pydiff.run_ref(srcs)
     findings = vlib.load_findings("C02")
